@@ -282,7 +282,12 @@ class BMC:
         for key, v in new_mem.items():
             if isinstance(v, list): changed += [v[j] != mem[key][j] for j in range(len(v))]
             else: changed.append(v != mem[key])
-        if not self.opts.get("allow_stutter"):
+        if self.opts.get("stutter_when_alone"):
+            # a step that changes nothing is allowed only for a thread that is the ONLY one still running: that is exactly a thread
+            # spinning on something nobody will change any more (what the progress queries look for); everywhere else it is redundant
+            alone = z3.Or([z3.And(self.sched[k] == t, z3.And([done_flags[u] for u in range(T) if u != t] + [z3.BoolVal(True)])) for t in range(T)])
+            self.add(z3.Or(z3.Or(changed), alldone, alone))
+        elif not self.opts.get("allow_stutter"):
             self.add(z3.Or(z3.Or(changed), alldone))
         # static partial-order reduction: adjacent INDEPENDENT steps only in increasing thread order
         if self.por and k + 1 < S:
